@@ -5,7 +5,7 @@ from harness import ref_vlq
 PROPERTY = 'C10'
 LEVEL = 'exploration'
 RULE = ('integers: exhaustive symmetric range (quick +-2^16, thorough +-2^20) + every raw value within '
-        '+-2 of 32^k/2 for k<=80 + Hypothesis unbounded integers, integer lists, mappings structures '
+        '+-2 of 32^k/2 for k<=80 and of +-2^k for k<=400 + Hypothesis unbounded integers, integer lists, mappings structures '
         '(>=1 line, segments of 1/4/5 and other lengths) and canonical VLQ strings built from the grammar; '
         'oracles: decode(encode(x))==x at value/list/mappings level, encode(decode(s))==s for canonical s, '
         'and both directions against an independent reference codec (R4); a third of the cases run right after a call that failed part way (invalid element after valid ones, producer raising midway, malformed string). '
@@ -169,6 +169,12 @@ def boundaries():
         for d in (-1, 0, 1):
             out.add(16 * raw + d)
             out.add(-(16 * raw + d))
+    # machine-word boundaries: every power of two (the 32- and 64-bit limits of other implementations and of
+    # later editions of the format are among them) with its neighbours, both signs
+    for k in range(0, 401):
+        for d in (-2, -1, 0, 1, 2):
+            out.add(2 ** k + d)
+            out.add(-(2 ** k + d))
     return sorted(out)
 
 
@@ -197,6 +203,8 @@ def run_shard(shard):
         from harness.hyp import run_given
         ints = st.one_of(st.integers(), st.integers(-40, 40), st.integers(-2 ** 12, 2 ** 12),
                          st.builds(lambda k, d, s: s * (32 ** k // 2 + d), st.integers(0, 80),
+                                   st.integers(-2, 2), st.sampled_from([-1, 1])),
+                         st.builds(lambda k, d, s: s * (2 ** k + d), st.integers(0, 130),
                                    st.integers(-2, 2), st.sampled_from([-1, 1])))
         seg = st.one_of(st.lists(ints, min_size=1, max_size=1), st.lists(ints, min_size=4, max_size=4),
                         st.lists(ints, min_size=5, max_size=5), st.lists(ints, min_size=1, max_size=7))
